@@ -11,9 +11,9 @@ LEAN_MODULES = ['VotelibProofs.Props.C05']
 GEN_MODULES = []
 REQUIRED = ['cw_copeland', 'cw_minimax_wv', 'cw_minimax_margins', 'cw_schulze', 'cw_benham', 'cw_tideman',
             'cw_rankedpairs_partial', 'cw_kemeny_partial', 'kemeny_is_argmax', 'kemeny_refusal',
-            'copeland_in_smith', 'schulze_in_smith', 'kemeny_in_smith', 'copeland_defining', 'minimax_worst_counterscore',
+            'copeland_in_smith', 'schulze_in_smith', 'kemeny_in_smith', 'copeland_defining', 'minimax_defining', 'worstDefeat_is_max',
             'no_candidate_dropped_copeland', 'no_candidate_dropped_minimax', 'no_candidate_dropped_schulze',
-            'cw_rankedpairs_witness', 'cw_kemeny_witness', 'rankedpairs_dropped_witness', 'minimax_never_loser_witness',
+            'cw_rankedpairs_witness', 'cw_kemeny_witness', 'rankedpairs_dropped_witness', 'minimax_never_loser_fixed',
             'benham_elimination_tie_witness', 'tideman_elimination_tie_witness', 'tideman_last_tie_witness']
 UNPROVED = ['cw_rankedpairs (rankedPairs sc v 1 = ok [w]): FALSE as stated on the current code (cw_rankedpairs_witness: refusal '
             'although a Condorcet winner exists); proved instead: cw_rankedpairs_partial (whenever it answers, it answers [w])',
@@ -21,8 +21,6 @@ UNPROVED = ['cw_rankedpairs (rankedPairs sc v 1 = ok [w]): FALSE as stated on th
             'place ties); proved instead: cw_kemeny_partial (elects exactly w or refuses with NotImplementedError)',
             'lockPairs_acyclic', 'widestPaths_correct (value = max over paths of min edge)',
             'rankedpairs_in_smith', 'benham_in_smith', 'tideman_in_smith',
-            'minimax_defining (worst defeat over ALL opponents, absent pair = 0:0): FALSE on sparse dictionaries '
-            '(minimax_never_loser_witness); proved instead: minimax_worst_counterscore (maximum over the pairs present)',
             'rankedpairs no_candidate_dropped: FALSE (rankedpairs_dropped_witness)',
             'copeland second-order defining computation (only the first-order scores are characterised: copeland_defining)']
 REQUIRED_COUNTERS = ['converter', 'has_cw', 'sparse_never_loser', 'all_tied', 'cycle', 'from_ranked', 'uab_true', 'uab_false',
@@ -39,7 +37,8 @@ NOT_VERIFIED = ['dict insertion order is the protocol order (CPython dict semant
                 'of equal second-order scores is canonicalised), Schulze `all_candidates` and Kemeny-Young permutations '
                 '(results do not depend on it), the frozenset `unranked` and shared ranks in RankedToCondorcetVotes '
                 '(only the insertion order of the pairwise dictionary depends on it; Benham/Tideman results do not)',
-                'minimax: float -inf is modelled as a rational above all finite negated counter-scores (get_n_best only compares)']
+                'minimax: float -inf (which survives only for a lone candidate) is modelled as a rational above all finite negated '
+                'counter-scores (get_n_best only compares)']
 EXHAUSTIVE = {'thorough': True}
 NAMES = CC.NAMES
 
@@ -479,10 +478,10 @@ LEVEL_TEXT = ('All ten registered Condorcet evaluators, the three pairwise win s
               'Copeland (both variants), minimax by winning votes and by margins, Schulze, Benham and Tideman alternative elect exactly '
               'the Condorcet winner for one seat; ranked pairs (all three scorers) and Kemeny-Young never elect anybody else (they '
               'answer [w] or refuse); Kemeny-Young answers only with the head of the unique best order; every candidate Copeland names '
-              'or Schulze names for one seat, and the first place of every Kemeny-Young answer, lies in the Smith set; Copeland ranks by wins minus losses; Copeland, Schulze and minimax list every '
+              'or Schulze names for one seat, and the first place of every Kemeny-Young answer, lies in the Smith set; Copeland ranks by wins minus losses and minimax by the worst defeat over all opponents (absent pair = 0:0); Copeland, Schulze and minimax list every '
               'candidate when there are as many seats as candidates.  Where the current code does not meet the '
-              'property (ranked pairs and Kemeny-Young refusals with a Condorcet winner, ranked pairs dropping candidates, minimax on '
-              'sparse dictionaries, hybrids crashing on elimination ties) the negation is proved on a concrete witness and the defect '
+              'property (ranked pairs and Kemeny-Young refusals with a Condorcet winner, ranked pairs dropping candidates, '
+              'hybrids crashing on elimination ties) the negation is proved on a concrete witness and the defect '
               'is a listed open finding.')
 LEVEL_NOTE = ('Trusted: Lean kernel + propext/Classical.choice/Quot.sound; the correspondence harness (bounded by its generator: 2-6 '
               'candidates, int/Fraction counts, profiles of up to 6 ballots); CPython dict order, set iteration order canonicalised as '
